@@ -66,7 +66,7 @@ def blankText (s : Text) : Bool := s.all isSpaceCp
 
 inductive Scalar where
   | nil
-  | undef
+  | undef (name : String)   -- `Undefined(name)`: the name is part of its `repr`, hence of a cycle key built from arguments
   | int (n : Nat)
   | str (s : Text)
   deriving DecidableEq, Repr
@@ -87,14 +87,14 @@ def digits (n : Nat) : Text := (Nat.repr n).toList.map Char.toNat
 /-- `str(x)` for the items of a list (`soft_str`): `None` prints as "None" -/
 def pyStr : Scalar → Text
   | .nil => [78, 111, 110, 101]
-  | .undef => []
+  | .undef _ => []
   | .int n => digits n
   | .str s => s
 
 /-- `to_liquid_string(val, autoescape=False)` -/
 def toStr : Val → Text
   | .sc .nil => []
-  | .sc .undef => []
+  | .sc (.undef _) => []
   | .sc (.int n) => digits n
   | .sc (.str s) => s
   | .list xs => xs.flatMap pyStr
@@ -102,7 +102,7 @@ def toStr : Val → Text
 /-- Liquid truthiness: only nil / undefined (and false, not modelled) are falsy -/
 def truthy : Val → Bool
   | .sc .nil => false
-  | .sc .undef => false
+  | .sc (.undef _) => false
   | _ => true
 
 /-- `LoopExpression._to_iter` (with `string_sequences = False`): a list iterates its items, a non-empty string is a
@@ -345,7 +345,7 @@ def evalVar (c : Cx) (w : W) (name : String) : Val :=
     | none =>
       match lookupA c.globals name with
       | some v => v
-      | none => .sc .undef
+      | none => .sc (.undef name)
 
 def eval (c : Cx) (w : W) : Expr → Val
   | .lit v => v
@@ -570,7 +570,7 @@ def strSize (s : Text) : Nat :=
 
 def pySizeof : Val → Nat
   | .sc .nil => 16
-  | .sc .undef => 64
+  | .sc (.undef _) => 64
   | .sc (.int n) => 24 + 4 * intDigits n
   | .sc (.str s) => strSize s
   | .list xs => 56 + 8 * (xs.length + xs.length % 2)   -- `list(tuple)`: exact preallocation, rounded up to an even count
